@@ -61,7 +61,7 @@ theorem stepP_bridge_vertex (g : BGraph) (v : Nat) (hv : g.isIfV v = true) (h : 
     g.stepP (v, 0) = mapStep (fun w => (w, 0)) (g.toGraph.stepE v) := by
   unfold bridgeVertexOk at h
   split at h
-  · rename_i nm r l call ifs ends ifOps isNot sws swe heq
+  · rename_i nm r l call ifs ends ifOps isNot sws swe b1 b2 b3 b4 b5 b6 b7 heq
     simp only [Bool.and_eq_true, Bool.not_eq_true', List.isEmpty_iff] at h
     obtain ⟨⟨⟨hops, hnot⟩, hjump⟩, hedges⟩ := h
     subst hops; subst hnot
